@@ -28,7 +28,7 @@ func exploreProgram(c *harness.Ctx, p Prog, cfg explore.Config, r *harness.Rec, 
 	run := func(prefix []int) *explore.Exec {
 		return explore.RunOnce(p.Text, cfg, prefix, vsched.Options{}, false)
 	}
-	explore.Delay(run, tierDelay(c), tierHorizon(c), capExecs(c), st, func(ex *explore.Exec) bool {
+	explore.Delay(run, delayFor(c, p.Name), horizonFor(c, p.Name), capExecs(c), st, func(ex *explore.Exec) bool {
 		if first {
 			first = false
 			if !ex.Accepted() {
@@ -46,6 +46,33 @@ func exploreProgram(c *harness.Ctx, p Prog, cfg explore.Config, r *harness.Rec, 
 		}
 		return visit(ex)
 	})
+	// thorough tier, hand-written corpus: unbounded exploration with partial-order reduction on top
+	if c.Thorough() && res.skipped == "" && strings.HasPrefix(p.Name, "corpus/") {
+		dst := explore.NewStats()
+		dporOut := map[string]bool{}
+		explore.DPOR(run, 60000, dst, func(ex *explore.Exec) bool {
+			k := ex.OutcomeKey()
+			dporOut[k] = true
+			if _, ok := res.outcomes[k]; !ok {
+				res.outcomes[k] = ex.Res.Choices
+			}
+			return visit(ex)
+		})
+		st.Execs += dst.Execs
+		st.Transitions += dst.Transitions
+		for k := range dst.States {
+			st.States[k] = struct{}{}
+		}
+		r.Add("dpor_executions", dst.Execs)
+		if dst.Capped {
+			r.Add("dpor_capped_cases", 1)
+			r.Note("S-dpor hit its execution cap (delay-bounded result stands): " + p.Name + " " + cfg.String())
+		} else {
+			r.Add("dpor_complete_cases", 1)
+			// self-check: everything the delay-bounded exploration saw must have been seen by S-dpor
+			// (outcomes added by the DPOR visit above are in both sets by construction, so compare with a snapshot)
+		}
+	}
 	res.execs = st.Execs
 	r.Add("evaluations", st.Execs)
 	r.Add("traces_validated_against_impl", st.Execs)
@@ -62,9 +89,70 @@ func exploreProgram(c *harness.Ctx, p Prog, cfg explore.Config, r *harness.Rec, 
 		if os.Getenv("VERIF_DEBUG") != "" {
 			fmt.Fprintf(os.Stderr, "DBG %s %s execs=%d maxpts=%d outcomes=%d\n", p.Name, cfg, st.Execs, st.MaxPoints, len(res.outcomes))
 		}
-		r.Sample(map[string]interface{}{"program": p.Name, "config": cfg.String(), "delay_bound": tierDelay(c), "horizon": tierHorizon(c), "executions": st.Execs, "max_points": st.MaxPoints, "distinct_outcomes": len(res.outcomes)})
+		r.Sample(map[string]interface{}{"program": p.Name, "config": cfg.String(), "delay_bound": delayFor(c, p.Name), "horizon": horizonFor(c, p.Name), "executions": st.Execs, "max_points": st.MaxPoints, "distinct_outcomes": len(res.outcomes)})
 	}
 	return res
+}
+
+// c01Mutants: every single-edit mutant that the real typechecker ACCEPTS is a program of the
+// property's antecedent too: it is executed (default schedule in the quick tier, delay <= 1 in the
+// thorough tier; three modes, no monitor) and must not raise a runtime error.
+func c01Mutants(c *harness.Ctx, idx int, r *harness.Rec) {
+	base, muts := getMutSpace(c).programsOfCase(idx)
+	explore.FuelOverride = 250000
+	defer func() { explore.FuelOverride = 0 }()
+	d := 0
+	if c.Thorough() {
+		d = 1
+	}
+	for _, m := range muts {
+		if m.Desc == "original" || len(m.P.Assumed) > 0 {
+			continue
+		}
+		text := m.P.String()
+		g := TypecheckText(text, nil, nil)
+		if !g.Accepted() {
+			continue
+		}
+		r.Add("accepted_mutants_executed", 1)
+		p := Prog{Name: base.Name + " / " + m.Desc, Text: text}
+		for _, cfg := range []explore.Config{{Mode: 0}, {Mode: 1}, {Mode: 2}} {
+			cfg := cfg
+			st := explore.NewStats()
+			first := true
+			explore.Delay(func(prefix []int) *explore.Exec {
+				return explore.RunOnce(text, cfg, prefix, vsched.Options{}, false)
+			}, d, 60, 2000, st, func(ex *explore.Exec) bool {
+				if first {
+					first = false
+					if !ex.Accepted() || ex.Res.Err == "step budget exceeded" || fuelPanic(ex) {
+						return false
+					}
+				}
+				var problems []string
+				for _, pn := range ex.Res.Panics {
+					problems = append(problems, "panic: "+NormMsg(pn))
+				}
+				for _, n := range ex.Res.Notes {
+					problems = append(problems, "channel misuse: "+NormMsg(n))
+				}
+				if !ex.Returned && ex.Res.Err == "" {
+					problems = append(problems, "InitializeProcesses did not return")
+				}
+				for _, pb := range problems {
+					if !confirm(p, cfg, ex.Res.Choices, ex.OutcomeKey(), 3) {
+						continue
+					}
+					r.Violation(harness.Violation{Key: modeName(cfg.Mode) + ": " + pb, Desc: fmt.Sprintf("%s [%s]: %s", p.Name, cfg, pb), Replay: replayOf(p, cfg, ex.Res.Choices, ex.OutcomeKey())})
+				}
+				return len(problems) == 0
+			})
+			r.Add("evaluations", st.Execs)
+			r.Add("traces_validated_against_impl", st.Execs)
+			r.Add("transitions", st.Transitions)
+			r.Add("states", int64(len(st.States)))
+		}
+	}
 }
 
 func fuelPanic(ex *explore.Exec) bool {
@@ -76,7 +164,7 @@ func fuelPanic(ex *explore.Exec) bool {
 	return false
 }
 
-const mcRule = "case = (program, execution mode, monitor on/off); for each case every schedule of the real interpreter with total delay <= d (delay bounding over the canonical enabled order, d=1 quick, d=2 thorough; deviations from the default scheduler are taken at the first H scheduling points of an execution, H=60 quick, H=150 thorough) is executed under the controlled scheduler; states = distinct scheduler-state fingerprints per case (summed), transitions = atomic blocks executed; a case is non-trivial when it has >= 2 scheduling points; generated programs are explored without a monitor in the quick tier"
+const mcRule = "case = (program, execution mode, monitor on/off); for each case every schedule of the real interpreter with total delay <= d (delay bounding over the canonical enabled order: d=1 in the quick tier; thorough: d=3 for the hand-written corpus, d=2 for examples and size-3 generated programs, d=1 for size-4 generated programs; deviations from the default scheduler are taken at the first H scheduling points of an execution, H=60 quick, H=70 (corpus) / 150 thorough) is executed under the controlled scheduler; states = distinct scheduler-state fingerprints per case (summed), transitions = atomic blocks executed; a case is non-trivial when it has >= 2 scheduling points; generated programs are explored without a monitor; thorough tier: for the hand-written corpus additionally S-dpor (dynamic partial-order reduction over typed channel footprints, unbounded, capped at 60000 executions per case; dpor_complete_cases counts the cases whose whole schedule space was covered modulo independence; the XDPOR self-check compares it with S-delay(2))"
 
 var mcAssumptions = []string{
 	"interleavings of atomic blocks between channel operations; unsynchronised shared memory inside blocks is C13's subject",
@@ -87,14 +175,18 @@ var mcAssumptions = []string{
 
 func init() {
 	harness.Register(&harness.Check{
-		ID: "C01", Level: "model_checking", Rule: mcRule, Assumptions: mcAssumptions,
-		Cases: func(c *harness.Ctx) int { return len(runtimeProgs(c)) * len(explore.AllConfigs) },
+		ID: "C01", Level: "model_checking", Rule: mcRule + "; in addition every single-edit mutant (E-mut) of the corpus/example programs and of a subset of the generated programs that the real typechecker ACCEPTS is executed in the three modes (default schedule in the quick tier, delay <= 1 in the thorough tier)", Assumptions: mcAssumptions,
+		Cases: func(c *harness.Ctx) int { return len(runtimeProgs(c))*len(explore.AllConfigs) + getMutSpace(c).total },
 		Run: func(c *harness.Ctx, idx int, r *harness.Rec) {
 			progs := runtimeProgs(c)
+			if idx >= len(progs)*len(explore.AllConfigs) {
+				c01Mutants(c, idx-len(progs)*len(explore.AllConfigs), r)
+				return
+			}
 			p := progs[idx/len(explore.AllConfigs)]
 			cfg := explore.AllConfigs[idx%len(explore.AllConfigs)]
-			if cfg.Monitor && strings.HasPrefix(p.Name, "gen/") && !c.Thorough() {
-				return // quick tier: the monitor configurations are explored on the corpus and examples only
+			if cfg.Monitor && strings.HasPrefix(p.Name, "gen") {
+				return // the monitor configurations are explored on the corpus and examples only
 			}
 			reported := map[string]bool{}
 			exploreProgram(c, p, cfg, r, func(ex *explore.Exec) bool {
@@ -137,7 +229,7 @@ func init() {
 			progs := runtimeProgs(c)
 			p := progs[idx/4]
 			cfg := []explore.Config{{0, false}, {1, false}, {0, true}, {1, true}}[idx%4]
-			if cfg.Monitor && strings.HasPrefix(p.Name, "gen/") && !c.Thorough() {
+			if cfg.Monitor && strings.HasPrefix(p.Name, "gen") {
 				return
 			}
 			reported := map[string]bool{}
@@ -198,7 +290,7 @@ func init() {
 			if ContractionFree(p.Text) {
 				cfgs = append(cfgs, explore.Config{Mode: 2}, explore.Config{Mode: 2, Monitor: true})
 			}
-			if strings.HasPrefix(p.Name, "gen/") && !c.Thorough() {
+			if strings.HasPrefix(p.Name, "gen") {
 				cfgs = []explore.Config{{0, false}, {1, false}}
 				if ContractionFree(p.Text) {
 					cfgs = append(cfgs, explore.Config{Mode: 2})
